@@ -160,6 +160,13 @@ def check_geometry(case, ctx: Ctx):
             rest = nl[1] if len(nl) == 2 and cls != "Histogram2D" else list(nl[1:])
             for a in range(d):
                 require([float(x) for x in rest[a]] == [pairs[a][0][0]] + [p[1] for p in pairs[a]], "numpy_like_edges", f"axis {a}")
+    if cls == "CylindricalHistogram":
+        surf = ctx.call("projection(phi, z)", h.projection, 1, 2)
+        ss = np.asarray(surf.bin_sizes, dtype=float)
+        for idx in itertools.product(range(shape[1]), range(shape[2])):
+            want = (pairs[1][idx[0]][1] - pairs[1][idx[0]][0]) * (pairs[2][idx[1]][1] - pairs[2][idx[1]][0])
+            require(close(float(ss[idx]), want), "projected_surface_measure", f"cell {idx}: {ss[idx]!r} want {want!r} (radius {surf.radius!r})")
+        ctx.label("cylinder_surface_projection")
     errs = np.asarray(h.errors)
     for got, e2v in zip(errs.ravel().tolist(), np.asarray(h.errors2).ravel().tolist()):
         require(abs(got - math.sqrt(float(e2v))) <= 2.0 ** -20 * max(1.0, got), "errors_sqrt", f"{got!r} vs sqrt({e2v!r})")
@@ -240,6 +247,11 @@ def geometry_cases(draw, tier="quick"):
     d = len(axes)
     spec = {"axes": axes, "dtype": dtype, "freq": freq, "err2": err2, "missed": [0, 0, 0] if d == 1 else [0], "keep_missed": True,
             "meta": draw(hgen.meta(d, rich=False)), "adaptive": False, "class": name}
+    if name in ("SphericalSurfaceHistogram", "CylindricalSurfaceHistogram", "AzimuthalHistogram"):
+        # the radius attribute is descriptive: bin measures are in the histogram's own (angular) coordinates
+        r = draw(st.sampled_from([None, 1, 2.5, 0.5, 7]))
+        if r is not None:
+            spec["meta"]["radius"] = r
     return {"spec": spec, "full": full, "by": draw(st.sampled_from(["index", "name"])), "merge_axis": draw(st.integers(0, 3)), "merge_amount": draw(st.integers(2, 3))}
 
 
